@@ -2,6 +2,8 @@
 # run every seeded change against the quick check of its own property (on a patched scratch copy of /repo)
 # usage: tools/seedmatrix.sh [glob]      -> seeded/DETECTION.txt
 out=/verif/seeded/DETECTION.txt
+# PROOF=1: proof obligations only (bounded stand-ins skipped) -> seeded/DETECTION_PROOF.txt
+if [ -n "$PROOF" ]; then out=/verif/seeded/DETECTION_PROOF.txt; export PYVC_ONLY_PROOF=1; fi
 pat=${1:-C*-*m[0-9]*}
 : > $out.tmp
 for d in /verif/seeded/$pat; do
